@@ -7,6 +7,7 @@ import (
 	"fmt"
 	"io"
 	"testing"
+	"time"
 
 	"github.com/256dpi/lungo"
 	"github.com/256dpi/lungo/verifsim/simrt"
@@ -29,6 +30,22 @@ func genC18Shared(seed uint64, run int) *Plan {
 	p.Cfg.Fine = pick(r, 0, 1, 1, 2)
 	cs := pick(r, 2, 3, 5, 8)
 	p.Cfg.BlockSize = cs
+	switch r.IntN(5) {
+	case 0:
+		// (a Drop racing an upload is not a scenario: Drop removes two collections in two steps and the bucket
+		// then skips index creation because files exist - the official driver's shortcut, too; nothing is claimed)
+		// two uploads under one file name whose lifetimes overlap: revisions go by completion (uploadDate)
+		p.Cfg.Variant = "byname"
+		d1, d2 := int64(100+r.IntN(400)), int64(1+r.IntN(80))
+		a := TaskPlan{Name: "first-opened", Role: "namer", Ops: []Op{{K: "gfs.open", N: 1}, {K: "gfs.write", N: pick(r, 1, cs, 2*cs+1)}, {K: "sleep", Ms: d1}, {K: "gfs.close"}}}
+		b := TaskPlan{Name: "second-opened", Role: "namer", Ops: []Op{{K: "sleep", Ms: d2}, {K: "gfs.open", N: 2}, {K: "gfs.write", N: pick(r, 1, cs, cs+2)}, {K: "gfs.close"}}}
+		if r.IntN(2) == 0 {
+			// or the other way round: the later opener also closes later
+			b.Ops = append(b.Ops[:3:3], Op{K: "sleep", Ms: d1 + 50}, Op{K: "gfs.close"})
+		}
+		p.Tasks = []TaskPlan{a, b}
+		return p
+	}
 	if r.IntN(2) == 0 {
 		// upload: writer + closer
 		w := TaskPlan{Name: "writer", Role: "writer"}
@@ -73,6 +90,139 @@ type sharedCall struct {
 	n    int64
 	err  error
 	data []byte
+}
+
+// execC18Named runs the "byname" and "droprace" scenarios.
+func execC18Named(t *testing.T, plan *Plan) *Outcome {
+	return runPlan(t, plan, func(e *Env) {
+		sim := e.sim
+		cs := plan.Cfg.BlockSize
+		var bucket *lungo.Bucket
+		type upload struct {
+			id       int
+			n        int
+			closedAt time.Duration
+			closed   bool
+			err      error
+		}
+		ups := map[int]*upload{}
+		var order []*upload
+		var dropErr error
+		ok := false
+		ctx := context.Background()
+		sim.Go("setup", false, func(*simrt.Task) {
+			if err := e.open(); err != nil {
+				e.out.Harness = "open failed: " + err.Error()
+				return
+			}
+			bucket = lungo.NewBucket(e.client.Database("db"), options.GridFSBucket().SetName("fs"))
+			if plan.Cfg.Variant == "droprace" {
+				// a stored file, so that the bucket has its indexes and something to drop
+				s, err := bucket.OpenUploadStreamWithID(ctx, int32(1), "same", uploadOpts(cs))
+				if err == nil {
+					_, err = s.Write(gfsContent(1, 0, 2*cs))
+				}
+				if err == nil {
+					err = s.Close()
+				}
+				if err != nil {
+					e.out.Harness = "droprace setup failed: " + err.Error()
+					return
+				}
+			}
+			ok = true
+			for _, tp := range plan.Tasks {
+				tp := tp
+				sim.Go(tp.Name, false, func(*simrt.Task) {
+					var s *lungo.UploadStream
+					var u *upload
+					for _, op := range tp.Ops {
+						simrt.Yield("op:next")
+						switch op.K {
+						case "sleep":
+							time.Sleep(time.Duration(op.Ms) * time.Millisecond)
+							simrt.Yield("gfs:wake")
+						case "gfs.drop":
+							dropErr = bucket.Drop(ctx)
+							e.logf("[%s] drop -> %v", tp.Name, dropErr)
+						case "gfs.open":
+							u = &upload{id: op.N}
+							ups[op.N] = u
+							var err error
+							s, err = bucket.OpenUploadStreamWithID(ctx, int32(op.N), "same", uploadOpts(cs))
+							e.logf("[%s] open id=%d -> %v", tp.Name, op.N, err)
+							if err != nil {
+								u.err = err
+								return
+							}
+						case "gfs.write":
+							if s != nil {
+								n, err := s.Write(gfsContent(u.id, u.n, op.N))
+								if err != nil {
+									u.err = err
+									return
+								}
+								u.n += n
+							}
+						case "gfs.close":
+							if s != nil {
+								u.err = s.Close()
+								e.logf("[%s] close id=%d (%d bytes) -> %v", tp.Name, u.id, u.n, u.err)
+								if u.err == nil {
+									u.closed, u.closedAt = true, sim.Elapsed()
+									order = append(order, u)
+								}
+							}
+						}
+					}
+				})
+			}
+		})
+		sim.Run()
+		if !ok || e.out.Harness != "" {
+			return
+		}
+		e.out.Nontrivial = sim.ChoicePoints() > 0
+		if sim.PanicVal != nil || sim.Deadlock != "" || sim.TimeOut || sim.StepsOut {
+			e.violate(violation("C16", "deadlock", "stall", fmt.Sprintf("GridFS run did not finish: panic=%v %s %s", sim.PanicVal, sim.Deadlock, e.stallReport())))
+			return
+		}
+		done := false
+		sim.Go("judge", false, func(*simrt.Task) {
+			defer func() { done = true }()
+			read := func(s *lungo.DownloadStream, err error) ([]byte, error) {
+				if err != nil {
+					return nil, err
+				}
+				defer s.Close()
+				return io.ReadAll(s)
+			}
+			if plan.Cfg.Variant == "byname" {
+				for _, u := range ups {
+					if u.err != nil {
+						e.violate(violation("C18", "unexpected-error", "byname", fmt.Sprintf("upload %d under a shared file name failed: %v", u.id, u.err)))
+						return
+					}
+				}
+				if len(order) != 2 || order[0].closedAt == order[1].closedAt {
+					return // (completed at the same instant: the order of revisions is not determined)
+				}
+				for rev, u := range map[int32]*upload{0: order[0], -1: order[1], 1: order[1], -2: order[0]} {
+					got, err := read(bucket.OpenDownloadStreamByName(ctx, "same", options.GridFSName().SetRevision(rev)))
+					if err != nil || !bytes.Equal(got, gfsContent(u.id, 0, u.n)) {
+						e.violate(violation("C18", "download-bytes", "by-name", fmt.Sprintf("revision %d of a file name with two uploads (completed at %v and %v) should be upload %d (%d bytes); got %d bytes, err %v", rev, order[0].closedAt, order[1].closedAt, u.id, u.n, len(got), err)))
+						return
+					}
+				}
+				e.probe("by-name-revisions-checked")
+				return
+			}
+		})
+		sim.Run()
+		if !done && !e.failed() {
+			e.out.Harness = "GridFS judgement did not finish"
+		}
+	})
 }
 
 func execC18Shared(t *testing.T, plan *Plan) *Outcome {
